@@ -14,6 +14,12 @@
 //	fs:  os.WriteFile/Remove/RemoveAll/Rename/Symlink/Mkdir/MkdirAll/Create/
 //	     OpenFile, ioutil.WriteFile -> vshim.OsX(site, ...)
 //
+//	sync=<file>+<file>: in the named files sync.Mutex / sync.Cond / sync.NewCond
+//	     -> vshim.Mutex / vshim.Cond / vshim.NewCond, "<-c" -> vshim.ChanRecv(c),
+//	     close(c) -> vshim.ChanClose(c)   (cooperative scheduler of C12)
+//	call=<old>:<new>+...: calls of the package-level function <old> become
+//	     calls of <new> (defined in an overlay file of the same package)
+//
 // Any construct the rewriter does not understand is a hard error.
 package main
 
@@ -31,6 +37,7 @@ import (
 	"strconv"
 	"strings"
 
+	"golang.org/x/tools/go/ast/astutil"
 	"golang.org/x/tools/go/packages"
 )
 
@@ -56,6 +63,8 @@ type rewriter struct {
 	relFile  string
 	funcName string
 	counts   map[string]int
+	noShim   bool
+	shimUsed bool
 }
 
 func (r *rewriter) site(pos token.Pos) *ast.BasicLit {
@@ -331,6 +340,64 @@ func (r *rewriter) file(f *ast.File) {
 	}
 }
 
+// rewriteSync replaces the synchronisation primitives of one file.
+func (r *rewriter) rewriteSync(f *ast.File) {
+	astutil.Apply(f, func(c *astutil.Cursor) bool {
+		switch x := c.Node().(type) {
+		case *ast.SelectorExpr:
+			if r.isPkg(x.X, "sync") {
+				switch x.Sel.Name {
+				case "Mutex", "Cond", "NewCond":
+					c.Replace(&ast.SelectorExpr{X: ident("vshim"), Sel: ident(x.Sel.Name)})
+					r.changed = true
+					r.counts["sync"]++
+				case "Locker":
+				default:
+					panic(fmt.Sprintf("%s: sync.%s is not supported by the sync rewrite", r.fset.Position(x.Pos()), x.Sel.Name))
+				}
+			}
+		case *ast.UnaryExpr:
+			if x.Op == token.ARROW {
+				c.Replace(shimCall("ChanRecv", x.X))
+				r.changed = true
+				r.counts["recv"]++
+			}
+		case *ast.SendStmt:
+			panic(fmt.Sprintf("%s: channel send is not supported by the sync rewrite", r.fset.Position(x.Pos())))
+		case *ast.SelectStmt:
+			panic(fmt.Sprintf("%s: select is not supported by the sync rewrite", r.fset.Position(x.Pos())))
+		case *ast.CallExpr:
+			if id, ok := x.Fun.(*ast.Ident); ok && id.Name == "close" && len(x.Args) == 1 {
+				if _, isBuiltin := r.info.Uses[id].(*types.Builtin); isBuiltin {
+					c.Replace(shimCall("ChanClose", x.Args[0]))
+					r.changed = true
+					r.counts["close"]++
+				}
+			}
+		}
+		return true
+	}, nil)
+}
+
+// rewriteCalls renames calls of package-level functions.
+func (r *rewriter) rewriteCalls(f *ast.File, ren map[string]string) {
+	ast.Inspect(f, func(n ast.Node) bool {
+		if ce, ok := n.(*ast.CallExpr); ok {
+			if id, ok := ce.Fun.(*ast.Ident); ok {
+				if to, ok := ren[id.Name]; ok {
+					if fn, isFunc := r.info.Uses[id].(*types.Func); isFunc && fn.Pkg() == r.pkg.Types {
+						id.Name = to
+						r.changed = true
+						r.noShim = true
+						r.counts["call"]++
+					}
+				}
+			}
+		}
+		return true
+	})
+}
+
 // pkgStillUsed reports whether identifier name (an import name) is still
 // referenced in the file.
 func pkgStillUsed(f *ast.File, name string) bool {
@@ -357,8 +424,28 @@ func main() {
 		os.Exit(2)
 	}
 	want := map[string]bool{}
+	syncFiles := map[string]bool{}
+	callRen := map[string]string{}
 	for _, w := range strings.Split(*rewrites, ",") {
-		want[strings.TrimSpace(w)] = true
+		w = strings.TrimSpace(w)
+		if strings.HasPrefix(w, "sync=") {
+			for _, fn := range strings.Split(strings.TrimPrefix(w, "sync="), "+") {
+				syncFiles[fn] = true
+			}
+			continue
+		}
+		if strings.HasPrefix(w, "call=") {
+			for _, pr := range strings.Split(strings.TrimPrefix(w, "call="), "+") {
+				kv := strings.SplitN(pr, ":", 2)
+				if len(kv) != 2 {
+					fmt.Fprintln(os.Stderr, "rw: bad call rewrite", pr)
+					os.Exit(2)
+				}
+				callRen[kv[0]] = kv[1]
+			}
+			continue
+		}
+		want[w] = true
 	}
 	cfg := &packages.Config{
 		Mode: packages.NeedName | packages.NeedFiles | packages.NeedSyntax | packages.NeedTypes |
@@ -401,6 +488,12 @@ func main() {
 					}
 				}()
 				r.file(f)
+				if syncFiles[filepath.Base(fname)] {
+					r.rewriteSync(f)
+				}
+				if len(callRen) > 0 {
+					r.rewriteCalls(f, callRen)
+				}
 			}()
 			if !r.changed {
 				continue
@@ -410,7 +503,7 @@ func main() {
 			}
 			// add the shim import; drop imports that became unused.
 			imp := &ast.ImportSpec{Path: &ast.BasicLit{Kind: token.STRING, Value: strconv.Quote(shimPath)}}
-			added := false
+			added := !pkgStillUsed(f, "vshim") // no shim import needed (call renames only)
 			for _, d := range f.Decls {
 				if gd, ok := d.(*ast.GenDecl); ok && gd.Tok == token.IMPORT {
 					var keep []ast.Spec
@@ -421,7 +514,7 @@ func main() {
 						if is.Name != nil {
 							name = is.Name.Name
 						}
-						if (path == "os" || path == "io/ioutil") && !pkgStillUsed(f, name) {
+						if (path == "os" || path == "io/ioutil" || path == "sync") && !pkgStillUsed(f, name) {
 							continue
 						}
 						keep = append(keep, s)
